@@ -101,7 +101,8 @@ func ZZH_C04_ForeignPackage() {
 	case 1:
 		d.AddParagraph(zzvString())
 	case 2:
-		_, e := d.AddImageFromData([]byte(zzvString()), "new.png", ImageFormatPNG, 1, 1, nil)
+		// a new picture whose name may claim another format than its data has
+		_, e := d.AddImageFromData([]byte(zzvString()), []string{"new.png", "scan.bin", "x.xml"}[zzvChoice(3)], zzhFormats[zzvChoice(3)], 1, 1, nil)
 		zzvAssume(e == nil)
 	case 3:
 		zzvAssume(d.AddHeader(HeaderFooterTypeDefault, zzvString()) == nil)
@@ -150,7 +151,7 @@ func ZZH_C04_ForeignPackage() {
 	zzvReach("resaved")
 }
 
-var zzhWrappers = []string{"hyperlink", "smartTag", "ins", "sdt", "fldSimple", "customXml"}
+var zzhWrappers = []string{"hyperlink", "smartTag", "ins", "sdt", "fldSimple", "customXml", "textbox-in-run"}
 
 // Body text carried by runs survives open + save, wherever the runs sit.
 func ZZH_C04_RunText() {
@@ -159,6 +160,10 @@ func ZZH_C04_RunText() {
 	wrapped := `<w:` + w + `>` + inner + `</w:` + w + `>`
 	if w == "sdt" {
 		wrapped = `<w:sdt><w:sdtContent>` + inner + `</w:sdtContent></w:sdt>`
+	}
+	if w == "textbox-in-run" {
+		// a text box anchored in a run: paragraphs and runs nested inside an (unknown) child of w:r
+		wrapped = `<w:r><w:pict><w:txbxContent><w:p><w:r><w:t>inner</w:t></w:r></w:p></w:txbxContent></w:pict></w:r>`
 	}
 	body := `<w:p><w:r><w:t>before </w:t></w:r>` + wrapped + `<w:r><w:t> after</w:t></w:r></w:p>`
 	names, parts, _, _ := zzhForeignPackage(body)
